@@ -17,7 +17,7 @@ int dns_opts_set_timeout(struct dns_opts *opts, double new_timeout)
 	return -1;
     }
 
-    if (new_timeout < 0) {
+    if (!(new_timeout >= 0)) {
 	errno = EINVAL;
 	return -1;
     }
